@@ -261,6 +261,7 @@ static J gen_area_local_depth(Chooser &ch)
     plane = J::arr({J(base), J(a), J(b)});
     auto f = [&](double x, double y) { return base + a * (x - m.kernel[0]) + b * (y - m.kernel[1]); };
     std::vector<J> entries;
+    auto is_corner = [&](const J &e) { for (auto &p : m.coords) if (e[1][0][0].num() == p[0] && e[1][0][1].num() == p[1]) return true; return false; };
     for (auto &p : m.coords) entries.push_back(J::arr({J(f(p[0], p[1])), J::arr({jp(p[0], p[1])})}));
     if (form == 4)
       {
@@ -276,9 +277,17 @@ static J gen_area_local_depth(Chooser &ch)
         // the entries in any order (several points may also share one entry when their values agree - not generated: values differ)
         for (size_t i = entries.size(); i > 1; --i) std::swap(entries[i - 1], entries[ch.index(i)]);
       }
+    // the bare default (60%): anywhere before the first corner entry - every corner is listed after it, so it never shows, and
+    // interior points written before it are not its business
+    size_t first_corner = 0;
+    while (first_corner < entries.size() && !is_corner(entries[first_corner])) ++first_corner;
+    const size_t bare_at = ch.chance(60) ? ch.index(first_corner + 1) : entries.size() + 1;
     J sf = J::arr();
-    if (ch.chance(60)) sf.push(J::arr({J(base)})); // the bare default first (every corner is listed afterwards, so it never shows)
-    for (auto &e : entries) sf.push(e);
+    for (size_t i = 0; i < entries.size(); ++i)
+      {
+        if (i == bare_at) sf.push(J::arr({J(base)}));
+        sf.push(entries[i]);
+      }
     feat[key] = sf;
   };
   J pmin, pmax;
